@@ -57,6 +57,10 @@ CHECKS = {
    text="Production-wired claim reconciler (both syncers) syncs thousands of generated claims and XR pre-states twice (first sync, re-sync after a user edit and an XR status change) over sim; the stored XR and claim are compared field by field with a partition written from the property statement (claim->XR, never claim->XR, preserved on XR, XR->claim, never XR->claim). CSA merge-back of XR spec fields into the claim is recorded as known findings; everything else must be silent.",
    note="Trusted: the partition table in c07/main.go (written from the statement), sim SSA via k8s managedfields; the XRD preserves unknown fields so no pruning model is needed; removal of fields deleted on the other side is not required (superset semantics for nested maps).",
    technique="runtime monitoring: generated object pairs against a reference field partition", ref="3/C07"),
+ "C08": dict(cat="exploration",
+   text="Real definition and offered reconcilers with a capturing engine (the XR and claim reconcilers are the production-wired ones and reconcile only while the engine says their controller runs), interleaved at API-call granularity by a seeded scheduler with user deletions (claim, XR, XRD with foreground/background propagation), the Kubernetes garbage collector and CRD cleanup as explicit actors, a third party stripping finalizers and an injected API error; precedence monitors on every event of the single ordered trace (claim finalizer after XR delete, CRD delete after instances gone and controller stopped, Stop after instances gone, XRD finalizers after CRD gone, nothing terminating left with a stopped controller). The package-revision/Lock and composed-Usage clauses are not covered here.",
+   note="Trusted: " + SIM + " incl. the modelled CRD cleanup finalizer and GC foreground/background semantics; a stopped controller reconciles nothing; schedules are seeded random walks, not exhaustive.",
+   technique="runtime monitoring: online precedence monitors over a scheduled multi-controller trace", ref="3/C08"),
  "C09": dict(cat="exploration",
    text="Generated connection-detail maps, XRD key filters, extraction configs and pre-existing secrets (absent, uncontrolled typed/untyped, owner-controlled, foreign-controlled, controller tampered before the claim copies) run through the real XR reconciler (both composers) and the production-wired claim reconciler (both syncers) over sim; oracle over the stored Secrets and every write addressed to a Secret (filter, provenance against a reference extraction, only-if-requested, exact copy only from a secret controlled by the bound XR, no rewrite of identical data).",
    note="Trusted: " + SIM + "; the reference extraction (from the ConnectionDetail API docs); 'identical data never rewritten' is judged on requests only when the stored data equals exactly what would be published.",
@@ -69,6 +73,10 @@ CHECKS = {
    text="Real xcrd.ForCompositeResource/ForCompositeResourceClaim, XRD Validate/ValidateUpdate and the real XRD admission webhook (over sim) run on thousands of generated XRDs and (old,new) pairs; outputs compared with an independent oracle and golden machinery schemas. Held on the generated inputs.",
    note="Trusted: golden/machinery_*.json (reviewed dump of the machinery schema); the generator's schema grammar; sim accepts any CRD body on dry-run so webhook denials come only from Crossplane's validation.",
    technique="runtime monitoring: generated inputs against a reference oracle + golden machinery schema", ref="3/C11"),
+ "C20": dict(cat="fault_enumeration",
+   text="The init step list of cmd/crossplane/core/init.go rebuilt from the exported constructors over sim and the repository's CRD / webhook yaml: 10 initial stores (empty, partially / fully initialised, secrets with keys missing, stale CA bundles, user-edited defaults, packages pre-installed under custom names in every reference form), runs 1..3, and an API error (500, timeout, applied-but-504) at every call index of a run (sampled in quick) followed by a clean rerun; oracles: run n == run 1, key material never regenerated, issued certificates verify against the stored CA and cover the service DNS names, <=1 package per image repository, defaults untouched, every webhook-conversion CRD and webhook configuration carries the current CA bundle.",
+   note="Trusted: " + SIM + "; the harness's own image-reference parser and x509 verification; one synthetic webhook-conversion CRD is added to exercise CA injection.",
+   technique="runtime monitoring: state-equality and x509 oracles over repeated and aborted init runs (fault enumeration over API-call indices)", ref="3/C20"),
 }
 
 READY = [k for k in CHECKS if os.path.isdir(os.path.join(ROOT, "harness", k.lower()))]
